@@ -11,7 +11,7 @@ Steps (all in a scratch git worktree outside /repo and /verif, removed at the en
  1. demo passes on the unmodified tree
  2. patch applies, module builds, demo fails
  3. the unedited suite passes with the patch
-Then the patch is applied to /repo itself, every check's quick command is run, and /repo is restored.
+Then every check's quick tier is run against that worktree (patch applied).
 Writes /verif/seeded/<seed_id>/{patch.diff, demo files, notes.md, meta.json}.
 """
 import json, os, shutil, subprocess, sys, tempfile, time, glob, concurrent.futures
@@ -71,34 +71,26 @@ def main():
         if rc != 0:
             meta["suite_excerpt"] = "\n".join([l for l in out.splitlines() if "FAIL" in l][:8])
         meta["ran"].append("unedited suite with the change: rc=%d" % rc)
-    finally:
-        sh(f"git -C /repo worktree remove --force {wt}")
-    # checks against /repo itself (serialised: one patched /repo at a time)
-    import fcntl
-    lk = open("/tmp/seedval-repo.lock", "w")
-    fcntl.flock(lk, fcntl.LOCK_EX)
-    rc, out = sh("git -C /repo status --porcelain")
-    assert out.strip() == "", "/repo not clean: " + out
-    rc, out = sh(f"git -C /repo apply {os.path.join(src, 'patch.diff')}")
-    results = {}
-    try:
-        if rc == 0:
+        # the checks, on the scratch worktree with the change applied (same verdicts as on /repo itself; lets several
+        # validations run side by side)
+        results = {}
+        if meta.get("patch_applies") and meta.get("builds"):
             props = ["C%02d" % k for k in range(1, 21)]
             def runp(p):
                 vd = tempfile.mkdtemp(prefix="seedchk-")
                 os.makedirs(os.path.join(vd, "evidence"))
                 shutil.copy("/verif/known_findings.txt", vd)
-                r, o = sh(f"/verif/bin/scrapcheck -prop {p} -tier quick -repo /repo -verif {vd}", timeout=300)
+                r, o = sh(f"/verif/bin/scrapcheck -prop {p} -tier quick -repo {wt} -verif {vd}", timeout=300)
                 shutil.rmtree(vd, ignore_errors=True)
                 rules = sorted({l.split("[")[-1].split(" @ ")[0] for l in o.splitlines() if (": violated:" in l or ": undecided:" in l) and "[" in l})
                 first = next((l for l in o.splitlines() if ": violated:" in l or ": undecided:" in l), "")
-                return p, r, rules, first[:400]
-            with concurrent.futures.ThreadPoolExecutor(max_workers=8) as ex:
+                return p, r, rules, first[:400].replace(wt + "/", "")
+            with concurrent.futures.ThreadPoolExecutor(max_workers=6) as ex:
                 for p, r, rules, first in ex.map(runp, props):
                     if r != 0:
                         results[p] = {"exit": r, "rules": rules, "first_report": first}
     finally:
-        sh("git -C /repo checkout -- . && git -C /repo clean -fdq")
+        sh(f"git -C /repo worktree remove --force {wt}")
     meta["checks_reporting"] = results
     meta["detected_by_own_property_check"] = prop in results
     meta["detected_by_any_check"] = len(results) > 0
